@@ -567,6 +567,18 @@ func (w *lcWorld) hostOp(op string) {
 		rs, err := n.requestSnapshot(SnapshotOption{}, 100)
 		e.setStepReady(lcShard)
 		w.reqs = append(w.reqs, &lcReq{kind: "snapshot", rs: rs, err: err})
+	case "D": // NodeHost.ReadIndex
+		rs, err := n.read(100)
+		e.setStepReady(lcShard)
+		w.reqs = append(w.reqs, &lcReq{kind: "read", rs: rs, err: err})
+	case "G": // NodeHost.RequestAddNonVoting
+		rs, err := n.requestAddNonVotingWithOrderID(2, "a2", 0, 100)
+		e.setStepReady(lcShard)
+		w.reqs = append(w.reqs, &lcReq{kind: "confchange", rs: rs, err: err})
+	case "Q": // NodeHost.QueryRaftLog
+		rs, err := n.queryRaftLog(1, 3, 1024)
+		e.setStepReady(lcShard)
+		w.reqs = append(w.reqs, &lcReq{kind: "logquery", rs: rs, err: err})
 	case "a": // wait for the result of the last request
 		if q := w.last(); q != nil && q.err == nil {
 			vsched.Await(func() bool { return len(q.rs.CompletedC) > 0 }, "result of "+q.kind)
@@ -716,6 +728,14 @@ func lcScenarios(thorough bool) []lcScenario {
 		add(kind, true, "R P wu X C", 0)
 		add(kind, true, "R P S X C", 0)
 		add(kind, true, "R S P X C", 0)
+		// other request kinds in flight when the shard stops
+		if kind == "plain" {
+			add(kind, true, "R D X C", 0)
+			add(kind, true, "R G X C", 0)
+			add(kind, true, "R Q X C", 0)
+			add(kind, true, "R D G Q P X C", 0)
+			add(kind, true, "R D a G a Q a X C", 0)
+		}
 		// reader that holds the node while it is stopped
 		add(kind, true, "R P X C", 1)
 		add(kind, true, "R S X C", 1)
